@@ -9,7 +9,9 @@ BOUNDS = {
     "quick": "reconcile_spike_trains: 2 trains with 0..3 unordered, possibly repeated real spike times each (n1+n2<=5) "
              "and different real edges; 3 trains with <= 2,1,1; every public measure entry point (31 call forms): first train "
              "with 2 unordered/repeated times, second with 0..2 valid spikes, optional third valid train, on common "
-             "edges; py and pyx; caller's arrays and edges compared before/after every call",
+             "edges; py and pyx; caller's arrays and edges compared before/after every call; call sequences on the same "
+             "objects (a call, four other measures in bivariate and list form, the same call again) for 7 entry points, "
+             "trains with 0..2 spikes, with and without Reconcile",
     "thorough": "reconcile: 2 trains n1+n2<=6, 3 trains <= 2 each; measures: messy train with 3 times (n2 <= 1), and two messy trains with 2 times each",
 }
 OUTSIDE = "more spikes; spike times within 1e-6 of an edge but outside it are kept by design (tolerance) and are not passed to measures here"
